@@ -120,6 +120,8 @@ ObsOutReply(o, ev, seq) ==
            o1 == [o EXCEPT !.oblig = @ \ {pick}]
            tags == (IF good = {} THEN {Tag(IF pick.q \in {"announce_peer", "put"} /\ pick.allow = {} THEN {"C10"} ELSE {"C08"},
                                             "wrong KRPC form for this query", seq)} ELSE {})
+                   \cup (IF "foreign" \in DOMAIN ev /\ ev.foreign
+                         THEN {Tag({"C08"}, "reply addressed with another address object than the transport handed out for the asker (other type, or IPv6 zone lost)", seq)} ELSE {})
                    \cup (IF ev.kind = "r" /\ ~ev.idOk THEN {Tag({"C08"}, "response without the node's own ID", seq)} ELSE {})
                    \cup (IF ev.kind = "r" /\ ~ev.ipOk THEN {Tag({"C08"}, "response whose ip field is not the requester's address", seq)} ELSE {})
                    \cup (IF ev.kind = "r" /\ pick.q = "get_peers" /\ o.cfg.peerstore /\ ~ev.hasToken
